@@ -10,10 +10,26 @@ import (
 	"fmt"
 	"os"
 
+	"net/http/httptest"
+
 	"github.com/mimiro-io/datahub/internal/server"
+	"github.com/mimiro-io/datahub/internal/web"
 )
 
+// requests through the real handlers of internal/web (package server cannot import package web)
+func httpGet(store *server.Store, dsm *server.DsManager, path, accept string) (int, []byte) {
+	e := web.VerifC13Echo(store, dsm)
+	req := httptest.NewRequest("GET", path, nil)
+	if accept != "" {
+		req.Header.Set("Accept", accept)
+	}
+	rec := httptest.NewRecorder()
+	e.ServeHTTP(rec, req)
+	return rec.Code, rec.Body.Bytes()
+}
+
 func main() {
+	server.VerifC13HTTPGet = httpGet
 	dir := os.Args[1]
 	if len(os.Args) > 2 && os.Args[2] == "conc" {
 		var c server.VerifC13Case
